@@ -1211,7 +1211,7 @@ func (repo *Repository) load(ctx context.Context, depth int) error {
 			return errors.Wrapf(err, "branch %s", hash)
 		}
 
-		if pruneHeight == -1 { // use height of first branch since it is the longest
+		if i == 0 { // use height of first branch since it is the longest
 			pruneHeight = branch.Height() - depth
 		}
 
